@@ -41,7 +41,7 @@ pub fn tokens_to_line(tokens: &Tokens) -> String {
 
 /// Trim a command segment, but keep a trailing blank that is escaped
 /// with a backslash (e.g. `ls foo\ `).
-fn trim_cmd(token: &str) -> String {
+pub fn trim_cmd(token: &str) -> String {
     let head = token.trim_start();
     let trimmed = head.trim_end();
     if trimmed.len() < head.len() {
